@@ -57,7 +57,14 @@ func classByName(n string) (class, bool) {
 			return c, true
 		}
 	}
-	return class{}, false
+	return affinityClass(n)
+}
+
+func init() {
+	// number spellings with a huge value stay away from the clamped commands as well
+	for i := range clamps {
+		clamps[i].Classes = append(append([]string{}, clamps[i].Classes...), hugeNumStrings...)
+	}
 }
 
 // ---- documented skip list (commands never called by the sweep)
@@ -187,6 +194,9 @@ func code(kind, cmd, mod string, srcs []string) string {
 		return srcs[0] + " " + srcs[1] + srcs[2] + amp + srcs[3]
 	case "pipe":
 		return srcs[0] + " | " + srcs[1]
+	}
+	if c, ok := affinityCode(kind, srcs); ok {
+		return c
 	}
 	s := cmd
 	if len(srcs) > 0 {
